@@ -293,9 +293,17 @@ class Case:
                 self.route("to_dense", out, lambda: np.asarray(tn.to_dense(*groups)).reshape(-1), **{"labels_free": True})
             elif kind == "norm":
                 out = list(self.outer0)
-                rec = {"ev": "norm", "name": "norm", "out": out, "result": 0, "scale": self.scale, "exc": ""}
+                rec = {"ev": "norm", "name": "norm", "out": out, "result": 0, "scale": self.scale, "exc": "", "cls": self.structured or "tn"}
                 try:
-                    v = tn.norm(squared=True) if r.random() < 0.5 else tn.norm() ** 2
+                    if r.random() < 0.5 and not getattr(self, "updated", False):
+                        # explicit output labels: any subset; the labels left out are summed inside each layer
+                        k_ = r.randint(0, len(self.labels))
+                        out = r.sample(self.labels, k_)
+                        rec["out"] = out
+                        rec["name"] = "norm(output_inds)"
+                        v = tn.norm(output_inds=out, squared=True)
+                    else:
+                        v = tn.norm(squared=True) if r.random() < 0.5 else tn.norm() ** 2
                     rec["result"] = snap_int(v, max(self.tol, 1e-7) * 10, 10.0 ** (2 * self.scale))
                     rec["_mag"] = abs(v) * 10.0 ** (2 * self.scale)
                 except Exception as ex:  # noqa
@@ -332,7 +340,7 @@ class Case:
                     right.append(y)
                 if not left or o:
                     continue
-                rec = {"ev": "linop", "name": "tn.trace", "kind": "trace", "op": "N", "left": left, "right": right, "vec": [],
+                rec = {"ev": "linop", "name": "tn.trace", "kind": "trace", "op": "N", "ops": ["N"], "left": left, "right": right, "vec": [],
                        "result": [], "scale": self.scale, "exc": ""}
                 try:
                     self._put(rec, tn.trace(left, right))
@@ -464,7 +472,14 @@ class Case:
                    "exp_other": eo,
                    "other": [{"inds": list(i), "shape": [int(d) for d in a.shape], "data": snap_garray(a)} for i, a in tn_tensors(other)]}
             try:
-                v = tn.overlap(other)
+                if r.random() < 0.4 and not self.structured:
+                    # explicit output labels: the labels left out are summed separately in ket and bra
+                    sub = r.sample(out, r.randint(0, len(out)))
+                    rec["out"] = sub
+                    rec["name"] = "overlap(other,output_inds)"
+                    v = tn.overlap(other, output_inds=sub)
+                else:
+                    v = tn.overlap(other)
                 rec["result"] = snap_garray(np.asarray(v).reshape(-1), self.tol, 10.0 ** rec["scale"])
                 rec["_mag"] = abs(complex(v)) * 10.0 ** rec["scale"]
             except Exception as ex:  # noqa
@@ -579,9 +594,10 @@ class Case:
             any(len(set(inds)) != len(inds) for inds, _ in self.net0)
         if hyper0 and kind == "dense":
             kind = "matvec"     # TNLinearOperator.to_dense takes no output labels: rejected for hyper networks
-        op = r.choice(["N", "N", "H", "T", "C"])
+        op = r.choice(["N", "N", "H", "T", "C", "HH", "CC", "CH", "HT", "TT", "HC"])
         via = r.choice(["aslinearoperator", "class", "astype"])
-        rec = {"ev": "linop", "name": "%s.%s.%s" % (via, op, kind), "kind": "matvec" if kind == "matmat" else kind, "op": op,
+        rec = {"ev": "linop", "name": "%s.%s.%s" % (via, op, kind), "kind": "matvec" if kind == "matmat" else kind,
+               "op": op, "ops": list(op),
                "left": left, "right": right, "vec": [], "result": [], "scale": self.scale, "exc": ""}
         try:
             import quimb.tensor as qtn
@@ -595,21 +611,25 @@ class Case:
                 A = TNLinearOperator(tn, left, right, **dims_kw)
             else:
                 A = tn.aslinearoperator(left, right, **dims_kw)
-            if op == "H":
-                A = A.H
-            elif op == "T":
-                A = A.T
-            elif op == "C":
-                A = A.conj()
+            for o1 in op:
+                if o1 == "H":
+                    A = A.H
+                elif o1 == "T":
+                    A = A.T
+                elif o1 == "C":
+                    A = A.conj()
             if via == "astype":
                 A = A.astype("complex128")
-            incols = ld if op in ("H", "T") else rd
+            ntr = sum(1 for o1 in op if o1 in "HT")
+            incols = ld if ntr % 2 == 1 else rd
             nprng = np.random.default_rng(r.randrange(1 << 30))
             if kind == "trace":
                 # trace joins left[k] with right[k]: needs pairwise equal sizes; not offered for hyper networks
                 hyper = any(sum(inds.count(x) for inds, _ in self.net0) >= 3 for x in self.labels) or \
                     any(len(set(inds)) != len(inds) for inds, _ in self.net0)
                 if hyper or len(left) != len(right) or any(tn.ind_size(a) != tn.ind_size(b) for a, b in zip(left, right)):
+                    return
+                if len(op) > 1:
                     return
                 self._put(rec, A.trace())
             elif kind == "dense":
